@@ -109,8 +109,14 @@ impl GraphBlock {
             GraphBlock::BlockQuote(blocks) => {
                 blocks_to_markdown_sparce(blocks, options)
                     .lines()
-                    .map(|line| format!("> {}", line))
-                    .map(|line| line.trim().to_string())
+                    // quoted code keeps the whitespace at the ends of its lines
+                    .map(|line| {
+                        if line.is_empty() {
+                            ">".to_string()
+                        } else {
+                            format!("> {}", line)
+                        }
+                    })
                     .collect::<Vec<String>>()
                     .join("\n")
                     + "\n"
